@@ -107,7 +107,9 @@ unsigned int XMLSynchronizedStringPool::getId(const XMLCh* const toFind) const
     // make sure we return a truly unique id
     unsigned int constCount = fConstPool->getStringCount();
     XMLMutexLock lockInit(&const_cast<XMLSynchronizedStringPool*>(this)->fMutex);
-    return XMLStringPool::getId(toFind)+constCount;
+    // 0 means "not in the pool": do not turn it into the id of a constant-pool string
+    retVal = XMLStringPool::getId(toFind);
+    return retVal ? retVal+constCount : 0;
 }
 
 
